@@ -16,7 +16,8 @@ CHECKS = {
              "PDUs) and every byte string of length 0..2 (thorough 0..3) plus "
              "every 2-byte header x TLV-boundary tails is run through the real "
              "encoder/decoder and compared field-wise with an independently "
-             "written LLCP reader; exhaustive over the stated space.",
+             "written LLCP reader; exhaustive over the stated space."
+             " Also one PDU object encoded more than once with attributes assigned in between.",
         note="Trusted: ref/llcp_codec.py (independent reading of LLCP 1.3); "
              "byte strings longer than 3 octets are an enumerated grammar, not "
              "all strings."),
@@ -67,7 +68,8 @@ CHECKS = {
              "the unmodified udp driver on in-memory sockets; the negotiated "
              "values of both sides are compared with what the peer announced "
              "and three maximal UI PDUs each way are checked on the air log "
-             "against the receiver's LR and the selected bit rate.",
+             "against the receiver's LR and the selected bit rate."
+             " Also activations in which the side that becomes Initiator was given no role.",
         note="Both devices are nfcpy; passive activation at 106A over the "
              "virtual air; default schedule, no faults (those are C04/C09)."),
     'C06': dict(
@@ -82,7 +84,8 @@ CHECKS = {
              "stack (connect(), LLC, NFC-DEP, udp driver on in-memory "
              "sockets); octets at the server application and at the client "
              "must equal the sent ones exactly once, over-limit messages must "
-             "be refused without partial delivery.",
+             "be refused without partial delivery."
+             " Also Get with a second idle connection (other receive MIU) to the same server.",
         note="Default schedule, no faults; both devices are nfcpy; the SNEP "
              "client's own socket parameters are fixed by the library "
              "(MIU 128, RW 1)."),
@@ -113,7 +116,8 @@ CHECKS = {
              "generator and every message length 0..capacity+1 (boundary sets "
              "for large tags) the write must succeed, a fresh activation must "
              "read the same octets, capacity must not exceed the independent "
-             "layout model and capacity+1 must be rejected before any command.",
+             "layout model and capacity+1 must be rejected before any command."
+             " Also Type 3 Tags above 64 KiB (Ln uses its upper octet).",
         note="Simulators (sim/t1t..t4t.py) and layout models (ref/tlv.py, "
              "ref/t3.py, ref/t4.py) are the trusted base; grid in the "
              "evidence."),
@@ -157,7 +161,8 @@ CHECKS = {
              "snapshots are validated against history replay. (2) Threads: "
              "both link loops plus blocking senders/receivers (and a "
              "busy-toggling thread) under every schedule with <= 2 (thorough "
-             "3) deviations.",
+             "3) deviations."
+             " Scenarios include close, two senders on one socket and a second connection from the address just released.",
         note="NFC-DEP replaced by sim/llcpump.py / sim/pairmac.py; close() is "
              "only exercised in C09; 'random walks' of the quantifier are not "
              "done (sampling)."),
@@ -191,7 +196,8 @@ CHECKS = {
              "write/ACK/response, missing ACK, truncation at every length, "
              "wrong code/TFI, garbled fields, malformed datagrams) is "
              "injected; only data, CommunicationError subclasses with the "
-             "documented mapping, or IOError may come out.",
+             "documented mapping, or IOError may come out."
+             " Includes flag-only status octets without payload on commands that have no flag bits.",
         note="Chipset behaviour is sim/chipsets.py (written from the drivers' "
              "expectations and the frame formats)."),
     'C14': dict(
@@ -227,7 +233,8 @@ CHECKS = {
              "read / write with and without MAC / protect on ONE Lite-S object "
              "for three write-counter behaviours of the tag model, text "
              "passwords with characters above U+007F, protect on a tag that "
-             "already holds a key.",
+             "already holds a key."
+             " Also authenticate / protect histories on ONE NTAG21x object judged against the tag model's latched key and answering state.",
         note="Only the single-block DES primitive (pyDes) is shared with the "
              "library and cross-checked against openssl; not an adaptive "
              "forger."),
@@ -246,7 +253,8 @@ CHECKS = {
              "the collected one.  A second BFS starts from prepared states "
              "(owed acknowledgements, busy toggles, pending DM / SNL / CC with "
              "RW 0-2, two pending lookups around the exact fit) with sizes "
-             "relative to the room left in the aggregate.",
+             "relative to the room left in the aggregate."
+             " Prepared states include an outgoing CONNECT pending with RW 0/1/2, MIUX and SN.",
         note="Depth bound stated in the evidence (frontier not exhausted); "
              "snapshots validated against history replay; raw access points "
              "excluded as the statement says."),
@@ -263,7 +271,8 @@ CHECKS = {
              "address); the peer also asks for several names in one SNL PDU and "
              "issues a second lookup while the first is outstanding (its "
              "transaction identifier chosen adversarially); every transition "
-             "is compared with ref/addrtable.py.",
+             "is compared with ref/addrtable.py."
+             " Includes accepted sockets left open after the client disconnected (connect_lazy).",
         note="Depth bounds in the evidence; blocking calls run in a virtual "
              "thread while the link is pumped; named-range exhaustion errno "
              "is compared leniently (EADDRNOTAVAIL vs EAGAIN)."),
@@ -282,7 +291,8 @@ CHECKS = {
              "the call at which terminate() turns true; callback order, "
              "on-release exactly once per true on-connect, return value class, "
              "promptness after terminate, field-off and stale-target rules "
-             "are judged by ref/connect_contract.py.",
+             "are judged by ref/connect_contract.py."
+             " Also the n-th driver call raising IOError / KeyboardInterrupt at every n: connect() returns False.",
         note="Default schedule; the device and the LLCP peer are scripted; "
              "where docstring and code disagree on something the property "
              "does not mention both are accepted."),
@@ -322,7 +332,8 @@ CHECKS = {
              "truncation to the Type 3 Tag emulation directly and through "
              "connect(card=...); decode: all strings of length 0..2 and all "
              "PFB values through the NFC-DEP frame decoders.  connect() must "
-             "return, no thread may die with an uncaught exception or block.",
+             "return, no thread may die with an uncaught exception or block."
+             " Part dep: every crafted NFC-DEP frame followed by every kind of data exchange PDU (complete / truncated).",
         note="One malformed input per run (thorough: larger alphabets, both "
              "roles); virtual threads under the default schedule; the peer "
              "is nfcpy itself (air) or sim/peer.py."),
@@ -342,7 +353,8 @@ CHECKS = {
              "and tag.ndef; the result must be None or an NDEF object with "
              "length <= capacity whose octets lie inside the data area of the "
              "independent layout model, with no exception and a bounded "
-             "number of commands.",
+             "number of commands."
+             " Also a mapping 3.0 file above 64 KiB with NLEN around 8000h / 10000h on cards with 15 / 16 bit READ BINARY offsets.",
         note="Tag answers are arbitrary in content but well framed at RF "
              "level; budget = 4 x memory units + 64 commands."),
 }
